@@ -56,6 +56,12 @@ var badStmts = []string{
 	"UPDATE SET x = 1;",
 	"SELECT a,\n  b\nFROM\nWHERE;",
 	"DELETE users;",
+	// a token that cannot start a statement, alone on its line (nothing is
+	// consumed before the error: the parser has to step over it)
+	"foo",
+	"foo;",
+	"SELEC\n  a, b\nFROM t;",
+	"bar\n;",
 }
 
 var tokBad = []string{
